@@ -139,6 +139,30 @@ def TraitSet.init (v : Callback α α) (xs : List α) : Except Exc (PSet α) :=
   | .error e => .error e
   | .ok ys => .ok (ofList ys)
 
+/-- The constructors as `TraitSet.init`, `TSOSelf` and the drivers assume them
+(statement texts of `__new__` / `__init__` of `TraitSet` and `__init__` of
+`TraitSetObject`, trait_set_object.py:96-107, 474-484): a validator / notifier
+list is taken iff it `is not None`, and a `TraitSetObject` is linked to its owner
+iff the owner `is not None` (an alive but falsy owner is an owner).
+`Props/C07.lean` `C07_init_source` compares them with the working tree. -/
+def setConstructorsAssumed : List (List String) :=
+  [["def __new__(cls, *args, **kwargs)",
+    "self = super().__new__(cls)",
+    "self.item_validator = _validate_everything",
+    "self.notifiers = []",
+    "return self"],
+   ["def __init__(self, value=(), *, item_validator=None, notifiers=None)",
+    "if item_validator is not None: self.item_validator = item_validator",
+    "super().__init__((self.item_validator(item) for item in value))",
+    "if notifiers is not None: self.notifiers = notifiers"],
+   ["def __init__(self, trait, object, name, value)",
+    "self.trait = trait",
+    "self.object = (lambda: None) if object is None else ref(object)",
+    "self.name = name",
+    "self.name_items = None",
+    "if trait is not None and trait.has_items: self.name_items = name + '_items'",
+    "super().__init__(value, item_validator=self._validator, notifiers=[self.notifier])"]]
+
 /-! ### Copies -/
 
 /-- A `TraitSet` object as far as copying is concerned. -/
